@@ -180,53 +180,105 @@ def display_order(rep, prog):
 
 
 def parser_wiring(rep, prog, rule):
-    """version::{closure#0} and version_core::{closure#0} move the parsed pieces to the fields of the same name"""
-    rep.rule(rule, 2, "the closures of version() / version_core() put each parsed component into the field named for it")
+    """the grammar function `version` is interpreted as a whole with its leaf parsers answered by type: a parser
+    function returning u64 yields the next numbered token, one returning (Vec<Identifier>, Vec<Identifier>) the
+    (pre, build) pair (a lone Vec<Identifier>: pre first, then build), text-level combinators opaque tokens; helper parser
+    functions, `map` closures and imperative tails are interpreted. The result must be
+    Version { major: 1st, minor: 2nd, patch: 3rd, pre_release: pre, build: build }."""
+    from .. import gram
+    from ..interp import NONE, ok, some
+    from ..wmodels import parser_functions
+    rep.rule(rule, 1, "version() puts each parsed component into the field named for it (numbers in order of appearance, "
+                      "prerelease and build lists in theirs)")
     names = prog.field_names("Version")
-    # version_core closure: (major, _, minor, _, patch) -> (major, minor, patch)
-    key = "version_core::{closure#0}"
-    if prog.has_body(key):
-        it = Interp(prog, Policy())
-        try:
-            a = (tok(0), Tok("O", "dot1"), tok(1), Tok("O", "dot2"), tok(2))
-            r = it.call_closure(Clo(key, ()), [a])
-            good = isinstance(r, tuple) and [getattr(x, "name", None) for x in r] == ["arg0", "arg1", "arg2"]
-            if good:
-                rep.ok(rule)
-            else:
-                rep.fail(rule, "%s|%s|order" % (key, rule), "returned %r, expected (major, minor, patch) in input order" % (r,))
-        except Inconclusive as e:
-            rep.inconc("%s: %s" % (rule, e.reason), e.where)
-    key = "version::{closure#0}"
-    if prog.has_body(key):
-        it = Interp(prog, Policy())
-        try:
-            pre, build = Tok("L", "pre", (), dom="pre"), Tok("L", "build", (), dom="build")
-            # build the argument from the closure's parameter type: the (u64, u64, u64) slot carries the core, the
-            # (Vec<Identifier>, Vec<Identifier>) slot the extras, every other slot is an opaque parser result
-            body = prog.body(key)
-            pty = prog.types[body["locals"][2]]
-            if pty.get("k") != "tuple":
-                raise Inconclusive("version closure does not take a tuple")
-            elems = []
-            for i, tix in enumerate(pty["tys"]):
-                ts = prog.types[tix]["s"]
-                if ts == "(u64, u64, u64)":
-                    elems.append((tok(0), tok(1), tok(2)))
-                elif ts.startswith("(std::vec::Vec<Identifier>"):
-                    elems.append((pre, build))
-                else:
-                    elems.append(Tok("O", "slot%d" % i))
-            a = tuple(elems)
-            r = it.call_closure(Clo(key, ()), [a])
-            good = isinstance(r, Adt) and r.name == "Version"
-            if good:
-                f = dict(zip(names, r.fields))
-                good = [getattr(f[n], "name", None) for n in ("major", "minor", "patch", "pre_release", "build")] == \
-                    ["arg0", "arg1", "arg2", "pre", "build"]
-            if good:
-                rep.ok(rule)
-            else:
-                rep.fail(rule, "%s|%s|fields" % (key, rule), "built %r" % (r,))
-        except Inconclusive as e:
-            rep.inconc("%s: %s" % (rule, e.reason), e.where)
+    if not prog.has_body("version"):
+        rep.inconc("%s: grammar function `version` not found" % rule)
+        return
+    state = {"n": 0, "lists": 0}
+    pre, build = Tok("L", "pre", (), dom="pre"), Tok("L", "build", (), dom="build")
+
+    def ok_type(key):
+        t = prog.types[prog.body(key)["locals"][0]]
+        if t.get("k") == "adt" and t.get("adt") == "std::result::Result" and t.get("args"):
+            return prog.ty_str(t["args"][0])
+        return None
+
+    def leaf(key):
+        ty = ok_type(key)
+        if ty == "u64":
+            def f(interp, args, info):
+                state["n"] += 1
+                return ok(tok(state["n"] - 1))
+            return f
+        if ty == "(std::vec::Vec<Identifier>, std::vec::Vec<Identifier>)":
+            return lambda interp, args, info: ok((pre, build))
+        if ty == "std::vec::Vec<Identifier>":
+            def g(interp, args, info):
+                state["lists"] += 1
+                return ok(pre if state["lists"] == 1 else build)
+            return g
+        return None
+    overrides = {}
+    for k in parser_functions(prog):
+        if k != "version":
+            f = leaf(k)
+            if f is not None:
+                overrides[k] = f
+
+    class Wiring(Policy):
+        def parse_next(pself, interp, p, inp, info):
+            return ok(pself.value(interp, p, inp))
+
+        def value(pself, interp, p, inp):
+            k = p.kind
+            if k in ("context", "cut_err"):
+                return pself.value(interp, p.args[0], inp)
+            if k == "map":
+                return interp.call_value(p.extra, [pself.value(interp, p.args[0], inp)])
+            if k == "ref":
+                r = interp.call_key(p.extra, [inp])
+                if not (isinstance(r, Adt) and r.name == "std::result::Result" and r.variant == 0):
+                    raise Inconclusive("%s did not succeed" % p.extra)
+                return r.fields[0]
+            if k == "seq":
+                return tuple(pself.value(interp, a, inp) for a in p.args)
+            if k == "preceded":
+                pself.value(interp, p.args[0], inp)
+                return pself.value(interp, p.args[1], inp)
+            if k == "terminated":
+                v = pself.value(interp, p.args[0], inp)
+                pself.value(interp, p.args[1], inp)
+                return v
+            if k == "delimited":
+                pself.value(interp, p.args[0], inp)
+                v = pself.value(interp, p.args[1], inp)
+                pself.value(interp, p.args[2], inp)
+                return v
+            if k == "opt":
+                inner = gram.strip(p.args[0])
+                if inner.kind in ("lit", "prim", "take_while", "alt"):
+                    return NONE
+                return some(pself.value(interp, p.args[0], inp))
+            return Tok("O", "text")
+
+        def stream_strip_prefix(pself, interp, tok_, pat, info):
+            return NONE
+    it = Interp(prog, Wiring(), overrides=overrides)
+    inp = Ptr(Cell(Ptr(Cell(Tok("T", "input", "", dom="input")))))
+    try:
+        r = it.call_body("version", [inp])
+    except Inconclusive as e:
+        rep.inconc("%s: %s" % (rule, e.reason), e.where)
+        return
+    good = isinstance(r, Adt) and r.name == "std::result::Result" and r.variant == 0 and isinstance(r.fields[0], Adt) \
+        and r.fields[0].name == "Version"
+    got = None
+    if good:
+        f = dict(zip(names, r.fields[0].fields))
+        got = [getattr(it.strip(f[n]), "name", None) for n in ("major", "minor", "patch", "pre_release", "build")]
+        good = got == ["arg0", "arg1", "arg2", "pre", "build"]
+    if good:
+        rep.ok(rule)
+    else:
+        rep.fail(rule, "version|%s|fields" % rule, "version() built %r (fields major, minor, patch, pre_release, build carry %r)" % (r, got))
+    rep.analysed_item("version() interpreted as a whole with leaf parsers answered by type (%d leaf parser functions)" % len(overrides))
